@@ -350,10 +350,10 @@ def rule_acquire_release(ctx: Ctx) -> None:
 
 
 def run(ctx: Ctx) -> None:
-    rule_policy_contract(ctx)
-    rule_ordering(ctx)
-    rule_queue_entity(ctx)
-    rule_acquire_release(ctx)
+    ctx.guarded(rule_policy_contract)
+    ctx.guarded(rule_ordering)
+    ctx.guarded(rule_queue_entity)
+    ctx.guarded(rule_acquire_release)
 
 
 CODEL = QPS + "codel.py"
